@@ -343,8 +343,11 @@ def run_shard(shard):
             return np.asarray(out[0], dtype=np.float64), np.asarray(out[1], dtype=np.float64)
         return np.asarray(out, dtype=np.float64), None
 
+    special = {it["spec"] for it in shard["items"] if isinstance(it.get("spec"), str)}  # replay of a clause that has no tree
     for it in shard["items"]:
         sp = it["spec"]
+        if isinstance(sp, str):
+            continue
         name = sp["op"]
         rec.count("trees")
         rec.count("origin_" + it["origin"])
@@ -454,7 +457,10 @@ def run_shard(shard):
         # ---- merge_chains / indexing / slicing never change the function
         if sp["op"] == "Chain" and fwd_ok:
             _check_chain_ops(rec, it, sp, b0, real_call, rng, exp_shape, exp_cond, dtag, interp)
-    _check_merge_transforms(rec, shard, rng)
+    if not shard.get("replay") or "nested-transformed" in special:
+        _check_merge_transforms(rec, shard, rng)
+    if (shard.get("shard", 0) == 0 and not shard.get("replay")) or "label-conditions" in special:
+        _check_label_conditions(rec, shard, rng)
     out = rec.result()
     if not shard.get("replay"):
         out["required"] = {"interpreter_comparisons": rec.counters.get("interpreter_comparisons", 0),
@@ -511,6 +517,71 @@ def _check_chain_ops(rec, it, sp, b, real_call, rng, exp_shape, exp_cond, dtag, 
             rec.violation("chain.slice.value", f"chain[{a}:{e}] is not the chain of those members; {sp}", it, ("init", 0.0), {})
 
 
+def _check_label_conditions(rec, shard, rng):
+    """EmbedCondition (and the combinators that pass a condition on) only re-present the inputs: with an embedding network
+    that looks class labels up in a table, every method must equal the child's method on the embedded label - also for
+    integer-typed labels (the documented use of an embedding network) and ids beyond float32's integer range."""
+    import equinox as eqx
+    import jax.numpy as jnp
+    import flowjax.bijections as B
+
+    d, K = 3, 7
+    table = jnp.asarray(rng.normal(size=(K, d)))
+
+    class Lookup(eqx.Module):
+        table: object
+
+        def __call__(self, lab):
+            return self.table[lab % K]
+
+    net = Lookup(table)
+    child = B.Chain([B.AdditiveCondition(lambda c: 2.0 * c, (d,), (d,)), B.Affine(jnp.arange(d, dtype=float), jnp.asarray([0.5, 2.0, 3.0]))])
+    emb = B.EmbedCondition(child, net, ())
+    x = jnp.asarray(rng.normal(size=d))
+    labs = [np.int32(0), np.int32(5), np.int32(2**24 + 1), np.int32(2**24 + 3), np.int64(2**31 + 5) if False else np.int32(2**30 + 11), 3]
+    wrappers = {
+        "EmbedCondition": (emb, lambda f, xx, lab: f(child)(xx, net(lab))),
+        "Chain[EmbedCondition, Flip]": (B.Chain([emb, B.Flip((d,))]), None),
+        "Invert(EmbedCondition)": (B.Invert(emb), None),
+    }
+    for lab in labs:
+        e = np.asarray(net(jnp.asarray(lab)), dtype=np.float64)
+        for method in ("transform", "transform_and_log_det", "inverse", "inverse_and_log_det"):
+            want = getattr(child, method)(x, jnp.asarray(e))
+            want_pt = np.asarray(want[0] if method.endswith("log_det") else want, dtype=np.float64)
+            for nm, (b, _) in wrappers.items():
+                rec.evals += 1
+                rec.count("label_condition_checks")
+                rec.nontrivial.add(("label", nm, int(lab), method))
+                m2 = method
+                ref = want_pt
+                if nm.startswith("Chain"):
+                    if method.startswith("transform"):
+                        ref = want_pt[::-1]
+                        xin = x
+                    else:
+                        xin = x[::-1]
+                elif nm.startswith("Invert"):
+                    m2 = method.replace("transform", "TMP").replace("inverse", "transform").replace("TMP", "inverse")
+                    xin = x
+                    w2 = getattr(child, m2)(x, jnp.asarray(e))
+                    ref = np.asarray(w2[0] if m2.endswith("log_det") else w2, dtype=np.float64)
+                else:
+                    xin = x
+                try:
+                    got = getattr(b, method)(xin, lab if isinstance(lab, int) else jnp.asarray(lab))
+                except Exception as ex:  # noqa: BLE001
+                    rec.violation("label_condition.exception", f"{nm}.{method} with the integer label {int(lab)} ({type(lab).__name__}) raised "
+                                                               f"{type(ex).__name__}: {str(ex)[:200]}; the child's method on the embedded label works",
+                                  {"spec": "label-conditions"}, ("init", 0.0), {})
+                    continue
+                got_pt = np.asarray(got[0] if method.endswith("log_det") else got, dtype=np.float64)
+                if got_pt.shape != ref.shape or not np.allclose(got_pt, ref, rtol=1e-12, atol=1e-12):
+                    rec.violation("label_condition.value", f"{nm}.{method} with the integer label {int(lab)}: {got_pt.tolist()} differs from the child's "
+                                                           f"method on the embedded label {ref.tolist()} (table row {int(lab) % K})",
+                                  {"spec": "label-conditions"}, ("init", 0.0), {})
+
+
 def _check_merge_transforms(rec, shard, rng):
     """Nested Transformed distributions: merge_transforms keeps log_prob and sample."""
     import jax.numpy as jnp
@@ -518,8 +589,6 @@ def _check_merge_transforms(rec, shard, rng):
     import flowjax.bijections as B
     from flowjax.distributions import Normal, StandardNormal, Transformed
 
-    if shard.get("replay"):
-        return
     for k in range(2):
         key = jr.PRNGKey(int(rng.integers(0, 2**31 - 1)))
         ks = jr.split(key, 6)
